@@ -50,6 +50,10 @@ TEXT = u'''Feature: F
     Examples:
       | t | b | a |
       | T3 | B3 | A3 |
+
+    @ex4
+    Examples: Header only
+      | a | b | t |
 '''
 SCHEMAS = [u"{name} -- @{row.id} {examples.name}", u"{name} [{examples.index}/{row.index}]", u"{name}"]
 A_VALUES = [u"", u"1", u"x y", u"ü€", u"b", u"a|b", u"<zz>", u" pad ", u"<b>", u"<t>", u"a", u">x<"]
